@@ -150,6 +150,13 @@ def check(ctx, report):
     report.count('C02.R4', len(risk_sites))
     for (fn, what) in sorted(risk_sites)[:10]:
         report.sample({'rule': 'C02.R4', 'site': fn, 'operation': what})
+    if 'mv' not in _TAB_CACHE:
+        # the abstract run no longer sees a risky subscript in the multi-directive parse (open mappings): the evaluation over the
+        # membership domain decides the dictionary accesses of that function on its own (pop / [] of a directive that is absent)
+        verdict = multi_directive_keys(ctx, report, funcs.get('FieldValueMultiple._parse_basic_params'))
+        report.sample({'rule': 'C02.R4', 'site': 'FieldValueMultiple._parse_basic_params', 'operation': 'key',
+                       'verdict': {True: 'no KeyError on any evaluated combination of attributes and directives', False: 'reported',
+                                   None: 'not evaluable here'}[verdict]})
     for rk in reviewed:
         if rk not in used_reviews:
             report.notes.append('reviewed C02 entry not needed any more: %s' % rk)
